@@ -87,6 +87,9 @@ func main() {
 	for k := 0; k < budget/4 && !tooAbnormal(); k++ {
 		emit(runSchedule(fs[k%len(fs)], func(n int) int { return rng.Intn(n) }))
 	}
+	if mode == "c13" {
+		debugHandlers(emit)
+	}
 	if mode == "c14" {
 		// real 1 ms ticker: ticks are nondeterministic
 		nt := budget/40 + 3
